@@ -92,34 +92,43 @@ def check_extend(eng, obl, out, n=2):
     e3.coverage_check(ex, obl, "extend", res)
 
 
-def check_remove_attrs(eng, obl, out):
-    ex = eng.executor(opaque_local={"HelperAttributeKinds::is_match"}, trace={"HelperAttributeKinds::is_match", "Vec::retain"})
-    fn = eng.find("remove_attrs::{closure#0}")
-    env = mir_engine.closure_env(fn)
-    res = ex.run(fn, eng.args_for(fn, overrides={1: env}))
-    obl.note_paths("remove_attrs::{closure#0}", res, ex)
-    obl.total += 1
-    ok = bool(res)
-    for r in res:
-        ev = [e for e in r.events if e[0] == "HelperAttributeKinds::is_match"]
-        v = r.value
-        if r.kind != "return" or len(ev) != 1 or not z3.is_expr(v) or not z3.is_not(v) or "is_match" not in str(v):
-            ok = False
-        elif "kinds" not in ev[0][1][0] or "attr" not in ev[0][1][1]:
-            ok = False
-    if ok:
-        obl.discharged += 1
-    else:
-        out.violation("remove_attrs-closure", "-", "remove_attrs keeps an attribute under another condition than `!kinds.is_match(attr)`: %s" % [(r.kind, str(r.value), r.events) for r in res][:2])
-    ex2 = eng.executor(trace={"Vec::retain"})
-    fn2 = eng.find("remove_attrs")
-    res2 = ex2.run(fn2, eng.args_for(fn2))
-    obl.note_paths("remove_attrs", res2, ex2)
-    obl.total += 1
-    if res2 and all(r.kind == "return" and len(r.events) == 1 and r.events[0][1][0] == "sym:attrs" and "closure" in r.events[0][1][1] and "sym:kinds" in r.events[0][1][1] for r in res2):
-        obl.discharged += 1
-    else:
-        out.violation("remove_attrs", "-", "remove_attrs does not `retain` on the given attribute vector with the given kinds: %s" % [r.events for r in res2][:2])
+def check_remove_attrs(eng, obl, out, n=3):
+    """remove_attrs on a vector of 0..n attributes: afterwards the vector holds exactly the attributes `kinds.is_match` says no to, in their original order.
+    `is_match` is an uninterpreted predicate of (kinds, attribute) here; what it answers is the subject of check_is_match."""
+    fn = eng.find("remove_attrs")
+    pure = "HelperAttributeKinds::is_match"
+    for k in range(n + 1):
+        ex = eng.executor(opaque_local={pure})
+        ex.pure_fns = {pure}
+        elems = [mx.Sym(("a%d" % i,), "Attribute") for i in range(k)]
+        res = ex.run(fn, [mx.Sym(("attrs",), "&mut Vec<Attribute>"), mx.Sym(("kinds",), "&HelperAttributeKinds")], mem={("attrs",): mx.VecL(elems)})
+        tag = "remove_attrs[%d attributes]" % k
+        stuck = obl.note_paths(tag, res, ex)
+        for r in stuck[:1]:
+            out.inconclusive.append("fn=%s reason=%s" % (tag, r.value))
+        match = [ex.bvar("pure:%s(sym:kinds,sym:a%d)" % (pure, i)) for i in range(k)]
+        for r in res:
+            if r.kind == "stuck":
+                continue
+            if r.kind == "panic":
+                obl.check_unsat(ex, tag + ":no-panic", list(r.pc), info=("remove", "panics (%s)" % r.value, ex, match, k))
+                continue
+            final = r.mem.get(("attrs",))
+            if not isinstance(final, mx.VecL):
+                out.inconclusive.append("fn=%s reason=the vector is replaced by a value the executor does not follow (%r)" % (tag, final))
+                continue
+            idx = [elems.index(x) if x in elems else -1 for x in final.items]
+            if -1 in idx or idx != sorted(set(idx)):
+                # kept attributes duplicated, foreign, or out of their original order: the path must be infeasible
+                obl.check_unsat(ex, tag + ":order", list(r.pc), info=("remove", "leaves attributes %s of [0..%d) in this order" % (idx, k), ex, match, k, idx))
+                continue
+            conj = [(z3.Not(match[i]) if i in idx else match[i]) for i in range(k)]
+            obl.check_unsat(ex, tag + ":kept-set", list(r.pc) + [z3.Not(z3.And(conj))] if conj else list(r.pc) + [z3.BoolVal(False)],
+                            info=("remove", "leaves attributes %s of [0..%d)" % (idx, k), ex, match, k, idx), keep_smt=True)
+        if not stuck:
+            e3.coverage_check(ex, obl, tag, res)
+    obl.samples.append({"function": "remove_attrs", "vector_lengths": list(range(n + 1)),
+                        "obligation": "path_condition AND NOT(kept == [a_i | NOT is_match(kinds, a_i)] in order) is UNSAT; panic paths infeasible"})
 
 
 def check_entry(eng, obl, out, which):
@@ -145,7 +154,9 @@ def check_entry(eng, obl, out, which):
         # every filter uses the set of kinds the builder filled in (incl. derive_ex itself), not a copy with something switched off
         kinds_args = set(e[1][1] for e in evs if e[0] == "remove_attrs" and len(e[1]) > 1)
         core_kinds = [e[1][-1] for e in evs if e[0] == core]
-        if len(kinds_args) > 1 or any("without_derive_ex" in k for k in kinds_args) or (core_kinds and kinds_args and core_kinds[0] not in kinds_args):
+        # (the builder receives `&mut kinds`: what the filters see afterwards is that local as the builder left it, i.e. its havoc'd value)
+        left_by_core = lambda k: ("havoc-bool(%s)" % core) in k
+        if len(kinds_args) > 1 or any("without_derive_ex" in k for k in kinds_args) or (core_kinds and kinds_args and not all(left_by_core(k) or k == core_kinds[0] for k in kinds_args)):
             problems.append("attributes are filtered with a different set of attribute kinds than the one the builder used: %s" % sorted(kinds_args)[:2])
         # every element the loops visited must have been filtered
         want = set()
@@ -254,6 +265,9 @@ def replay_failures(obl, out):
         if label.startswith("coverage:"):
             out.broken.append("path conditions do not cover the configuration space: " + label)
             continue
+        if info[0] == "remove":
+            replay_remove(out, label, model, info)
+            continue
         kind, name, ex = info
         if kind == "is_match":
             # replay: derive exactly the traits of the model through the attribute macro and look whether `#[name(..)]` on a field survives
@@ -281,6 +295,34 @@ def replay_failures(obl, out):
             out.violation("extend", "-", "HelperAttributeKinds::extend does not raise exactly the flags of the derived traits (%s)" % label)
 
 
+def replay_remove(out, label, model, info):
+    """a model of a failed remove_attrs obligation -> an item whose type-level attributes follow the model: matching ones are further `#[derive_ex(..)]` lists,
+    the others doc attributes; the re-emitted item must carry exactly the doc attributes, in order"""
+    from . import replay_e3
+    what, ex, match, k = info[1], info[2], info[3], info[4]
+    tv = [z3.is_true(model.eval(m, model_completion=True)) for m in match]
+    extra = ["Clone", "Default", "Debug", "Hash"]
+    attrs, expected = [], []
+    for i, t in enumerate(tv):
+        if t:
+            attrs.append("#[derive_ex(%s)]" % extra[i % len(extra)])
+        else:
+            attrs.append('#[doc = "k%d"]' % i)
+            expected.append("k%d" % i)
+    item = "%s struct X { a: u8 }" % " ".join(attrs)
+    case = {"property": PID, "kind": "attr_order", "mode": "attr", "attr": "PartialEq", "item": item, "expected_docs": expected,
+            "explain": "MIR path of remove_attrs %s when is_match answers %s" % (what, tv)}
+    key = "remove_attrs|%s" % "".join("m" if t else "k" for t in tv)
+    if any(v[0] == key for v in out.violations):
+        return
+    obs = replay_e3.observe(case)
+    if replay_e3.disagrees(case, obs):
+        path = e3.write_replay(PID, "remove-%s" % key.split("|")[1], case)
+        out.violation(key, path, "the re-emitted item does not carry exactly the attributes that are not derive_ex's, in their order: #[derive_ex(PartialEq)] %s -> %s" % (item, obs.get("item0", "")[:160]))
+    else:
+        out.broken.append("UNCONFIRMED counterexample for %s: %s" % (label, item))
+
+
 def run(tier):
     t0 = time.time()
     out = common.Outcome(PID)
@@ -289,7 +331,7 @@ def run(tier):
     try:
         check_is_match(eng, obl, out)
         check_extend(eng, obl, out, 2 if tier == "quick" else 3)
-        check_remove_attrs(eng, obl, out)
+        check_remove_attrs(eng, obl, out, 3 if tier == "quick" else 5)
         check_entry(eng, obl, out, "struct")
         check_entry(eng, obl, out, "enum")
         check_lib_entries(eng, obl, out)
